@@ -23,7 +23,7 @@ from ..index import call_name, walk_no_nested
 from ..report import Ctx
 
 
-def run(ctx: Ctx) -> None:
+def run(ctx: Ctx, numbers_decided: bool = False) -> None:
     idx = ctx.idx
     sl = idx.method("SourceMap", "span_lines", "guppylang_internals.span")
     ctx.saw("functions", sl.qualname)
@@ -62,6 +62,8 @@ def run(ctx: Ctx) -> None:
                   "the source lines shown are not the lines start..end of the span (1-based, plus the requested context)")
 
     # ---------------------------------------------------------------- R-C29.5
+    if numbers_decided:
+        return  # shape rule below = fallback for a tree where render_snippet cannot be interpreted as a whole
     rs = idx.method("DiagnosticsRenderer", "render_snippet", "guppylang_internals.diagnostic")
     key = f"{rs.qualname}#context-lines-keep-their-numbers"
     body = rs.node.body
